@@ -9,11 +9,11 @@ from vlib import core
 from vlib.core import Undecided, log
 from vlib.tlaparse import to_json
 
-HARNESS = ["zz_verif_c20_test.go", "zz_verif_c20b_test.go", "zz_verif_c20c_test.go"]
+HARNESS = ["zz_verif_c20_test.go", "zz_verif_c20b_test.go", "zz_verif_c20c_test.go", "zz_verif_c20d_test.go"]
 WEAK = ["NoTrustedHashCompare", "NoBlockIDCompare", "NoLastCommitBinding", "TxNotBound", "NoTxProofCheck",
         "ResultsPreimage", "ResultsHeightUnbound", "NoResultsHashCompare", "NoQueryProofCheck", "AbsenceRawKey",
         "NoParamsHashCompare", "ValsNotHashed", "BackwardsTargetNotRechecked", "BackwardsCommitUnverified",
-        "LatestPanicsWhenUpToDate", "LatestUnverifiedWhenUpToDate",
+        "LatestPanicsWhenUpToDate", "LatestUnverifiedWhenUpToDate", "EvidenceBoundByIdOnly",
         "SearchProofFromCachedBlock"]
 # the invariant each weakened spec must violate (any of)
 WEAK_EXPECT = {"ResultsPreimage": ["RelayComplete"], "AbsenceRawKey": ["RelayComplete"],
@@ -120,7 +120,7 @@ def run(ctx):
             raise Undecided("vacuity: weakened spec Weak_%s is not refuted (%s)" % (w, names or rw.errors[:1]))
         nonvac["Weak_%s refuted by TLC" % w] = names[0]
         if w in ("SearchProofFromCachedBlock", "BackwardsTargetNotRechecked", "BackwardsCommitUnverified",
-                 "LatestPanicsWhenUpToDate", "LatestUnverifiedWhenUpToDate"):
+                 "LatestPanicsWhenUpToDate", "LatestUnverifiedWhenUpToDate", "EvidenceBoundByIdOnly"):
             # the counterexample (a descending page spanning several heights / a forged block below the trust
             # height followed by a broken interim chain) is replayed on the real code
             try:
